@@ -17,6 +17,9 @@ int  op_stripe(cfg_t c, int n, char **frags, uint64_t flen);
 void op_size(cfg_t c, uint64_t len);
 void op_create(int be, int k, int m, int hd, int w);
 void op_crc(const unsigned char *p, size_t n);
+/* encode of an input too large for the library's int arithmetic (len beyond the guard): must be refused
+   without touching the caller's output variables, which still hold the (released) results of an earlier encode */
+void op_enclen(cfg_t c, uint64_t len);
 /* direct property oracles on the implementation alone (no model line; cheap, so pattern spaces are
    swept exhaustively): decode of the stripe without the fragments in `gone` / reconstruct of `dest`.
    mode: 0 the set is tolerated — anything but the exact result is a failure;
